@@ -304,8 +304,33 @@ func s11() *sched.Scenario {
 		}}
 }
 
+// S12: Server.Close racing an Allocate of a stream client whose lifecycle
+// callbacks yield (on a stream listener Close runs on the caller's goroutine while the
+// per-connection goroutine may still be inside a callback).
+func s12() *sched.Scenario {
+	return &sched.Scenario{Name: "S12-server-close-vs-stream-allocate", Bound: bound(), FreeBound: -1, Opt: opt,
+		Body: func(*vsched.Sched) (func() []string, func()) {
+			w := sched.NewBW(sched.BCfg{Stream: true, CB: yieldCB})
+			c := w.NewClient("c1")
+			var f flags
+			vsched.Go("client", func() {
+				c.Do(wire.Allocate, udp) // obtains a nonce ...
+				c.Do(wire.Refresh, lifetime(0)) // ... and leaves no allocation behind
+				vsched.Mark()
+				vsched.Go("closer", func() {
+					_ = w.Srv.Close()
+					f.set("closer")
+				})
+				c.Fire(wire.Allocate, udp)
+				f.set("client")
+			})
+
+			return f.need("client", "closer"), nil
+		}}
+}
+
 func scenarios() []*sched.Scenario {
-	return []*sched.Scenario{s1(), s2(), s3(), s4(), s5(), s6(), s7(), s8(), s10(), s11()}
+	return []*sched.Scenario{s1(), s2(), s3(), s4(), s5(), s6(), s7(), s8(), s10(), s11(), s12()}
 }
 
 func TestC18Sched(t *testing.T) {
